@@ -209,6 +209,7 @@ func (r *resolver) resolve(s *Schema, baseURI *url.URL) (*Resolved, error) {
 		return nil, fmt.Errorf("base URI %s must not have a fragment", baseURI)
 	}
 	rs := newResolved(s)
+	verifPoint("resolve")
 
 	if err := s.check(rs.resolvedInfos); err != nil {
 		return nil, err
